@@ -337,6 +337,54 @@ async def run_async(ctx, res):
         if obs != want:
             res4.fail("spec", inp, want, dict(result=rec["result"], sent=rec["sent"], value_after=rec["after"]),
                      "after a re-report: displayed form of a raw value inside the last reported bounds refused / outside them accepted")
+    # ---- 5. the queued set request is serialised LATER (as the producer does when it finally writes it), after a
+    # periodic controller report that still carries the old value has been handled: the request on the wire must
+    # carry the raw value of the displayed value that was written, for every parameter class (schedule parameters
+    # build their request from OTHER parameters of the device: switch + parameter + bitmap)
+    import asyncio
+    loop = asyncio.get_running_loop()
+    for product, tname, kind, label, row, p0 in allrows:
+        if kind == "control":
+            continue
+        if quick and ((kind == "ecomax" and rng.random() < 0.8) or (kind == "schedule" and rng.random() < 0.5)):
+            continue
+        w = worlds[product]
+        n = 256 ** row["size"]
+        cw = pd.conv_words(kind, row)
+        top = 2 if row["switch"] else min(n, 250)
+        raw = rng.randrange(top)
+        other = (raw + 1 + rng.randrange(top - 1)) % top
+        stale = (other, 0, top - 1)
+        await feed_triple(w, tables, tname, kind, row, (raw, 0, top - 1), st[product])
+        disp = w.device(label).data[row["name"]].value
+        await feed_triple(w, tables, tname, kind, row, stale, st[product])
+        p = w.device(label).data[row["name"]]
+        w.drain()
+        task = loop.create_task(p.set(disp, retries=1, timeout=5.0))
+        await pd.settle()
+        queued = w.drain()                          # frame objects, not yet serialised
+        await feed_triple(w, tables, tname, kind, row, stale, st[product])     # the old value once more
+        frames = []
+        for fr in queued:
+            try:
+                frames.append(pd.canon_frame(fr))   # serialised now
+            except Exception as e:  # noqa: BLE001
+                frames.append(("unencodable", type(e).__name__))
+        task.cancel()
+        await pd.settle()
+        w.drain()
+        setframes = [f for f in frames if f[0] == "unencodable" or f[0].startswith("Set")]
+        sent = request_raw(kind, setframes, row["size"])
+        if kind == "schedule" and isinstance(sent, tuple):
+            sent = sent[2] if row["name"].endswith("_schedule_switch") else sent[3]
+        res.case(("late-serialisation", cw, tname, row["name"], raw, other), True)
+        res.count("late-serialisation:" + kind)
+        if sent != raw:
+            res4.fail("spec", dict(table=tname, row=row["name"], conv=cw, held=list(stale), raw=raw, written=pd.canon_val(disp),
+                                   order="set(displayed) ; report of the old value handled ; queued request serialised"),
+                      f"transmit:{raw}", dict(sent=sent, frames=[list(f) for f in frames]),
+                      "the set request queued by writing back the displayed value does not carry that raw value once a stale report "
+                      "was handled before the request is serialised")
     res.failures = res4.failures + res.failures
     for w in worlds.values():
         await w.shutdown()
